@@ -1,6 +1,6 @@
 """C14 -- job results and life-cycle predicates tell the truth."""
 
-from . import common, predicates
+from . import shutrules, common, predicates
 
 
 def check(ctx, rep):
@@ -12,9 +12,10 @@ def check(ctx, rep):
         "stored only by the start path (and reset only before the first start), the running flag is stored "
         "True only in the window wrapper while the slot is held and never reset, hence is_done => is_running "
         "=> is_scheduled and nothing reverts. R14.3 identity: the wrapper returns the awaited body's value "
-        "unchanged and never replaces its exception; the coroutine-based job returns the awaited value.")
+        "unchanged and never replaces its exception; the coroutine-based job returns the awaited value. R14.4 a cancelled nested scheduler ends cancelled (never by a return): a cancelled job is never reported done.")
     rep.trusted = ["T5 Task._state/_exception/_result (constant read from the stdlib source)", "T8"]
     predicates.lifecycle_tables(ctx, rep, "R14.1")
     predicates.writers_monotone(ctx, rep, "R14.2")
     common.wrap_typestate(ctx, rep, "R14.2w")
     predicates.identity_flow(ctx, rep, "R14.3")
+    shutrules.cancellation_propagates(ctx, rep, "R14.4")
